@@ -136,6 +136,8 @@ FORMS_R = {
     "second-by-name": "{S}(tr('a', 1), y=tr('b', 2))",
     "second-by-name-dstar": "{S}(tr('a', 1), **tr('kw', {{'y': 2}}))",
     "second-by-name-star-dstar": "{S}(*tr('xs', [1]), **tr('kw', {{'y': 2}}))",
+    "two-keywords-unsorted": "{S}(tr('a', 's'), k=tr('k', 3), j=tr('j', 4))",
+    "two-keywords-dependent": "{S}(tr('a', 's'), k=(kk := tr('k', 3)), j=kk + tr('j', 1))",
 }
 FORMS_N = {
     "one": "{S}(tr('a', 5))",
@@ -152,6 +154,8 @@ FORMS_N = {
     "second-by-name": "{S}(tr('a', 1), y=tr('b', 2))",
     "second-by-name-dstar": "{S}(tr('a', 1), **tr('kw', {{'y': 2}}))",
     "second-by-name-star-dstar": "{S}(*tr('xs', [1]), **tr('kw', {{'y': 2}}))",
+    "two-keywords-unsorted": "{S}(tr('a', 's'), k=tr('k', 3), j=tr('j', 4))",
+    "two-keywords-dependent": "{S}(tr('a', 's'), k=(kk := tr('k', 3)), j=kk + tr('j', 1))",
 }
 FAIL_R = "{S}(tr('f', 1.5))"
 SPECIALS = {"recurse": "recurse", "call_next": "call_next", "self-name": "fself", "renamed": "rec", "closure-name": "me"}
@@ -174,6 +178,10 @@ def lk(x: str, *, k: int):
     return ("K", x, k)
 
 
+def lkj(x: str, *, k: int, j: int):
+    return ("KJ", x, k, j)
+
+
 def base(x: int):
     return ("B", x)
 
@@ -183,7 +191,7 @@ FIXED_M = FIXED.replace("(x", "(self, x")
 FIXED_STRICT = FIXED
 for _old, _new in (("leaf_s(x: str)", "leaf_s(a: str)"), ('("S", x)', '("S", a)'), ("leaf_t(x: tuple)", "leaf_t(b: tuple)"), ('("T", x)', '("T", b)'),
                    ("l2(x: int, y: int)", "l2(c: int, y: int)"), ('("L2", x, y)', '("L2", c, y)'), ("lk(x: str, *, k: int)", "lk(d: str, *, k: int)"),
-                   ('("K", x, k)', '("K", d, k)'), ("base(x: int)", "base(e: int)"), ('("B", x)', '("B", e)')):
+                   ('("K", x, k)', '("K", d, k)'), ("lkj(x: str, *, k: int, j: int)", "lkj(g: str, *, k: int, j: int)"), ('("KJ", x, k, j)', '("KJ", g, k, j)'), ("base(x: int)", "base(e: int)"), ('("B", x)', '("B", e)')):
     assert _old in FIXED_STRICT, _old
     FIXED_STRICT = FIXED_STRICT.replace(_old, _new)
 
@@ -273,7 +281,7 @@ def build_real(src, fname, kind, special):
     exec(compile(src, fname, "exec"), glb, glb)
     gen._FACTORY_GLOBALS.append(glb)
     ov = Ovld()
-    for nm in ("leaf_s", "leaf_t", "l2", "lk", "base"):
+    for nm in ("leaf_s", "leaf_t", "l2", "lk", "lkj", "base"):
         ov.register(glb[nm])
     glb["fself"] = ov.dispatch
     tested = [glb["make"]("CV1"), glb["make"]("CV2")] if kind == "closure" else [glb["make"]("CV1")] if kind == "closure-selfname" else [glb["tested"]]
@@ -283,7 +291,7 @@ def build_real(src, fname, kind, special):
     fns = [ov]
     if kind == "closure":
         ov2 = Ovld()
-        for nm in ("leaf_s", "leaf_t", "l2", "lk", "base"):
+        for nm in ("leaf_s", "leaf_t", "l2", "lk", "lkj", "base"):
             ov2.register(glb[nm])
         ov2.register(tested[1], priority=1)
         fns.append(ov2)
@@ -313,6 +321,8 @@ def build_ref(src, fname, kind, special):
         if "y" in k and len(a) == 1:
             a = a + (k.pop("y"),)
         if k:
+            if set(k) == {"k", "j"} and len(a) == 1 and isinstance(a[0], str) and isinstance(k["k"], int) and isinstance(k["j"], int):
+                return call_method(glb["lkj"], a, k)
             if set(k) == {"k"} and len(a) == 1 and isinstance(a[0], str) and isinstance(k["k"], int):
                 return call_method(glb["lk"], a, k)
             raise NoMethod("No method")
@@ -417,8 +427,8 @@ def run_case(context, form, special, kind, acc):
     try:
         compile(src, fname, "exec")
     except SyntaxError as e:
-        if "+" in context:
-            # some depth-2 combinations are not Python (a walrus in a comprehension iterable, braces in an f-string)
+        if "+" in context or form == "two-keywords-dependent":
+            # some depth-2 combinations are not Python (nor is a form with its own walrus inside a comprehension iterable / class body) (a walrus in a comprehension iterable, braces in an f-string)
             if acc is not None:
                 acc.count("skipped_not_python")
             return found
@@ -521,7 +531,7 @@ def main(tier):
              "f-string, subscript / attribute base, walrus, try/finally, try/except around a failing call, generator, for, with, "
              "decorator, raise after the call, while / assert / augmented and annotated assignment, starred and ** displays, slice, comparison chain, "
              "match subject, yield from, except / else / with bodies, method of a nested class, doubly nested def, lambda in a comprehension, "
-             "nested comprehension, starred assignment, nonlocal target, class body, locals named type / isinstance / map, a call following a completed inner comprehension inside a comprehension iterable / second for clause / class body; thorough: and depth 2 = each of 12 expression contexts around the call inside every statement context, for recurse / call_next on three kinds) x 14 call forms (positional, two, keyword, starred, second positional by name directly / through ** / with * and **, "
+             "nested comprehension, starred assignment, nonlocal target, class body, locals named type / isinstance / map, a call following a completed inner comprehension inside a comprehension iterable / second for clause / class body; thorough: and depth 2 = each of 12 expression contexts around the call inside every statement context, for recurse / call_next on three kinds) x 16 call forms (positional, two, keyword, two keywords in non-alphabetical order (also one depending on the other through a walrus), starred, second positional by name directly / through ** / with * and **, "
              "double-starred, nested in the first / a later / a keyword argument / both) x 5 special names (recurse, call_next, the function's own name as a global / as a closure variable, a renamed import) x 8 "
              "function kinds (module-level, a method whose own function is a closure variable between two others, a function whose first position is strictly positional (named differently by every method), closure instantiated twice, positional defaults, keyword-only defaults, method with "
              "self, lambda / generator expression in the signature); each built twice from one source text; compared: acceptance, result, exception, order and multiplicity of "
